@@ -157,7 +157,7 @@ def _campaign(mod, args, seed, runner, findings, evidence):
                                             runner=(camp._isolated if isolated else None))
             if steps:
                 # describe the shrunk case, not the original one
-                again = (camp._isolated if isolated else (lambda c: runner.safe_run(mod, c)))(case)
+                again = camp._isolated(case) if isolated else runner.run_in_child(mod, [case])[0]
                 if again.get("st") == "viol" and again.get("sig") == sig:
                     out = again
             h = common.case_hash({"sig": sig})
